@@ -870,7 +870,7 @@ def same_fm(I, f1, f2):
             continue
         goals.append(z3.Implies(c1 > k, I.elem_eq(o1, o2)))
     goal = z3.Implies(inrange, z3.And(goals))
-    if ctx.entails(goal):
+    if ctx.entails(goal, patient=True):
         return True, None
     return False, ("per-element bodies differ", goal)
 
@@ -935,7 +935,7 @@ def same_by_extensionality(I, t1, t2):
     m1 = t1.any_member(i)
     m2 = t2.any_member(i)
     goal = z3.And(t1.length() == t2.length(), z3.Implies(m1.cond, I.elem_eq(m1.elem, m2.elem)))
-    if ctx.entails(goal):
+    if ctx.entails(goal, patient=True):
         return True, None
     return False, ("lists differ (extensionality)", goal)
 
